@@ -22,6 +22,15 @@ open PV
 @[simp] theorem setEventFlag_waiting (s : St) : (setEventFlag s).waiting = s.waiting := by
   unfold setEventFlag; split <;> rfl
 
+@[simp] theorem ite_setEventFlag_log (c : Prop) [Decidable c] (s : St) :
+    (if c then s else setEventFlag s).log = s.log := by split <;> simp
+@[simp] theorem ite_setEventFlag_buf (c : Prop) [Decidable c] (s : St) :
+    (if c then s else setEventFlag s).buf = s.buf := by split <;> simp
+@[simp] theorem ite_setEventFlag_closed (c : Prop) [Decidable c] (s : St) :
+    (if c then s else setEventFlag s).closed = s.closed := by split <;> simp
+@[simp] theorem ite_setEventFlag_waiting (c : Prop) [Decidable c] (s : St) :
+    (if c then s else setEventFlag s).waiting = s.waiting := by split <;> simp
+
 @[simp] theorem dropWaiter_buf (s : St) (t : Nat) : (dropWaiter s t).buf = s.buf := rfl
 @[simp] theorem dropWaiter_log (s : St) (t : Nat) : (dropWaiter s t).log = s.log := rfl
 @[simp] theorem dropWaiter_closed (s : St) (t : Nat) : (dropWaiter s t).closed = s.closed := rfl
@@ -79,7 +88,7 @@ theorem wakeWith_fed (f : Bool) (s : St) (w : Waiter) (e : Int) :
 theorem step_taken (f : Bool) (s : St) (a : Act) :
     takenOf (stepG f s a).log ++ (stepG f s a).buf = takenOf s.log ++ s.buf ++ a.fedBytes := by
   cases a with
-  | feed d => simp [stepG, Ev.taken, Act.fedBytes, List.append_assoc]
+  | feed d => by_cases hd : d = [] <;> simp [stepG, Ev.taken, Act.fedBytes, List.append_assoc, hd]
   | read tid n t =>
     simp only [stepG, Act.fedBytes, List.append_nil]
     split
@@ -107,7 +116,7 @@ theorem step_taken (f : Bool) (s : St) (a : Act) :
 theorem step_fed (f : Bool) (s : St) (a : Act) :
     fedOf (stepG f s a).log = fedOf s.log ++ a.fedBytes := by
   cases a with
-  | feed d => simp [stepG, Ev.fedBytes, Act.fedBytes]
+  | feed d => by_cases hd : d = [] <;> simp [stepG, Ev.fedBytes, Act.fedBytes, hd]
   | read tid n t =>
     simp only [stepG, Act.fedBytes, List.append_nil]
     split
@@ -161,7 +170,7 @@ theorem findWaiter_mem (s : St) (tid : Nat) (w : Waiter) (h : findWaiter s tid =
 theorem waitersOk_step (f : Bool) (s : St) (a : Act) (hs : WaitersOk s) (ha : a.sizeOk) :
     WaitersOk (stepG f s a) := by
   cases a with
-  | feed d => intro w hw; simp [stepG] at hw; exact hs w hw
+  | feed d => intro w hw; by_cases hd : d = [] <;> simp [stepG, hd] at hw <;> exact hs w hw
   | read tid n t =>
     simp only [Act.sizeOk] at ha
     simp only [stepG]
